@@ -596,4 +596,39 @@ theorem hnodup_flatten_perm (env : Env) (sep : Str) (s : Schema) (e : Elem)
     HNodup env sep s (wrap ps) :=
   hnodup_perm env sep s _ _ (hnodup_flatten env sep s e hs henv hw hroot hok hnar) (wrap_perm hp)
 
+/-! ### the executable test is complete as well (`hnodupB_sound` is in EndToEndNodup.lean) -/
+
+mutual
+theorem hnodupB_complete (env : Env) (sep : Str) : ∀ (s : Schema) (ps : Pairs),
+    HNodup env sep s ps → hnodupB env sep s ps = true
+  | .leaf .., ps, h => by simpa [hnodupB, HNodup] using h
+  | .joined .., ps, h => by simpa [hnodupB, HNodup] using h
+  | .dict name o m fields, ps, h => by
+    simp only [HNodup] at h
+    simp only [hnodupB]
+    exact hnodupFieldsB_complete env sep fields _ h
+  | .compound name o k fields, ps, h => by
+    simp only [HNodup] at h
+    simp only [hnodupB]
+    exact hnodupFieldsB_complete env sep fields _ h
+  | .list name o prune mx member, ps, h => by
+    simp only [HNodup] at h
+    simp only [hnodupB, Bool.and_eq_true, List.all_eq_true]
+    exact ⟨fun i _ => hnodupB_complete env sep member _ (h i),
+      hnodupB_complete env sep member [] (hnodup_nil env sep member)⟩
+  | .array name o prune member, ps, h => by
+    simp only [HNodup] at h
+    simp only [hnodupB]
+    split
+    · rename_i hn; simpa [hn] using h
+    · rename_i hn; simpa [hn] using h
+theorem hnodupFieldsB_complete (env : Env) (sep : Str) : ∀ (fs : List Schema) (poss : List (Str × Str)),
+    HNodupFields env sep fs poss → hnodupFieldsB env sep fs poss = true
+  | [], _, _ => by simp [hnodupFieldsB]
+  | f :: fs, poss, h => by
+    simp only [HNodupFields] at h
+    simp only [hnodupFieldsB, Bool.and_eq_true]
+    exact ⟨hnodupB_complete env sep f _ h.1, hnodupFieldsB_complete env sep fs poss h.2⟩
+end
+
 end Flatland.Flat.Proofs
